@@ -31,6 +31,9 @@ func (p *verifInner) UserGroups(email string, groups []string, token string) ([]
 	p.Execs++
 	p.Methods = append(p.Methods, "UserGroups")
 	zz.Yield()
+	if zz.NondetBool("inner.usergroups.fails") {
+		return nil, ErrAuthProviderUnavailable
+	}
 	return []string{zz.NondetString("inner.group")}, nil
 }
 
@@ -88,6 +91,7 @@ func VerifC16ProxyWrappers() {
 		ok      bool
 		done    bool
 		out     []string
+		err     error
 	}
 	var cs [2]*caller
 	for i := 0; i < 2; i++ {
@@ -113,9 +117,9 @@ func VerifC16ProxyWrappers() {
 			case 0:
 				c.ok = via.ValidateSessionState(c.sess, c.groups)
 			case 1:
-				c.ok, _ = via.RefreshSession(c.sess, c.groups)
+				c.ok, c.err = via.RefreshSession(c.sess, c.groups)
 			case 2:
-				c.out, _ = via.UserGroups(c.email, c.groups, c.sess.AccessToken)
+				c.out, c.err = via.UserGroups(c.email, c.groups, c.sess.AccessToken)
 			}
 			c.done = true
 		})
@@ -150,6 +154,11 @@ func VerifC16ProxyWrappers() {
 		zz.Assert(before[0].RefreshToken == before[1].RefreshToken, "C16.refreshes of different refresh tokens are never merged")
 	case 2:
 		zz.Assert(zz.And(a.email == b.email, verifSetEq2(a.groups0, b.groups0)), "C16.group lookups for a different user or group set are never merged")
+	}
+	// every caller whose call was merged receives the answer of the one execution
+	zz.Assert(zz.And((a.err == nil) == (b.err == nil), a.ok == b.ok), "C16.merged callers receive the same verdict and the same error or success (proxy wrapper)")
+	if a.method == 2 {
+		zz.Assert(verifSetEq2(a.out, b.out), "C16.merged group lookups receive the same groups (proxy wrapper)")
 	}
 	// a caller whose call was merged ends up with the same session updates as the caller whose call ran
 	if a.method == 0 && a.ok && b.ok {
